@@ -20,6 +20,10 @@
      R       rlock; read section; runlock
      V       cv waiter on the same mutex: lock; while (!cvflag) nsync_cv_wait; unlock
      S       lock; cvflag=1; nsync_cv_signal; unlock   (the cv waiter is transferred to the mutex queue)
+     F       lock; cvflag=1; unlock                    (sets the cv waiters' flag without waking)
+     Sr / Br rlock; nsync_cv_signal / broadcast; runlock   (a wake-up issued inside a READER section: the
+             transferred waiter sits on the mutex queue while only readers hold the mutex)
+     G       nsync_cv_signal with no lock held (after an F)
      N       notify the fresh note
      @k      wait until k waiters have announced themselves
 
@@ -51,6 +55,10 @@ static struct wrec wr[SLOTS];
 static int announced;
 static volatile int announced_ge[SLOTS + 1];
 static int began_true[MC_MAXF][2], set_here[MC_MAXF][2], oblig[2];
+/* cv waiters ('V') and the wake-ups issued to them: same accounting as in the cv family */
+static int v_state[MC_MAXF], v_seq[MC_MAXF], v_returns;
+struct vwake { int bcast; unsigned q; int seq[MC_MAXF]; int issued; };
+static struct vwake vw[SLOTS]; static int nvw;
 static int cond_evals;
 
 MC_ORACLE static void cond_check (void) {
@@ -75,7 +83,8 @@ static int mw_setup (const char *program) {
 			if (*p == 'N') { fresh = 1; p++; } else if (*p == 'x') p++;
 			if (*p == 'z') p++;
 			if (*p) return -1;
-		} else if (strlen (o) == 1 && strchr ("ABZzRVSN", o[0])) { if (o[0] == 'N') notifier = 1; }
+		} else if (!strcmp (o, "Sr") || !strcmp (o, "Br")) {
+		} else if (strlen (o) == 1 && strchr ("ABZzRVSNFG", o[0])) { if (o[0] == 'N') notifier = 1; }
 		else if (o[0] == '@' && o[1] >= '1' && o[1] <= '9' && o[2] == 0) ;
 		else return -1;
 	}
@@ -99,7 +108,15 @@ MC_ORACLE static int announce (int slot, int var, int reader, int64_t dl, nsync_
 	w->state = 1; w->var = var; w->reader = reader; w->timed = dl != MC_NEVER; w->dl = dl; w->note = note;
 	return ++announced;
 }
-MC_ORACLE static int count_cv_waiter (void) { return ++announced; }
+MC_ORACLE static int count_cv_waiter (void) { int me = mc_self (); v_state[me] = 1; v_seq[me]++; return ++announced; }
+MC_ORACLE static void cv_waiter_returned (void) { v_state[mc_self ()] = 2; v_returns++; }
+MC_ORACLE static int new_vwake (int bcast) {
+	int i; unsigned q = 0;
+	for (i = 0; i < MC_MAXF; i++) { vw[nvw].seq[i] = v_seq[i]; if (v_state[i] == 1) q |= 1u << i; }
+	vw[nvw].bcast = bcast; vw[nvw].q = q; vw[nvw].issued = 0;
+	return nvw++;
+}
+MC_ORACLE static void vwake_issued (int k) { vw[k].issued = 1; }
 MC_ORACLE static void returned (int slot, int res) {
 	struct wrec *w = &wr[slot];
 	int truth = val[w->var] != 0;
@@ -164,6 +181,13 @@ static void mw_thread (int me) {
 		else switch (o[0]) {
 		case 'A': case 'B': {
 			int v = (o[0] == 'B');
+			if (o[1] == 'r') {   /* "Br": broadcast inside a reader section */
+				int k;
+				nsync_mu_rlock (&mu); h_enter (&mu, 0, "nsync_mu_rlock");
+				k = new_vwake (1); mc_point (); nsync_cv_broadcast (&cv); vwake_issued (k);
+				h_leave (&mu, 0); nsync_mu_runlock (&mu);
+				break;
+			}
 			wlock (); mc_point (); val[v] = 1; sec_set (v); wunlock (1);
 			break; }
 		case 'Z': wlock (); write_section (); wunlock (1); break;
@@ -177,10 +201,26 @@ static void mw_thread (int me) {
 				h_leave (&mu, 1);
 				nsync_cv_wait (&cv, &mu);
 				h_enter (&mu, 1, "return from nsync_cv_wait"); sec_begin ();
+				cv_waiter_returned ();
 			}
 			wunlock (1);
 			break;
-		case 'S': wlock (); cvflag = 1; nsync_cv_signal (&cv); wunlock (1); break;
+		case 'S':
+			if (o[1] == 'r') {
+				int k;
+				nsync_mu_rlock (&mu); h_enter (&mu, 0, "nsync_mu_rlock");
+				k = new_vwake (o[0] == 'B');
+				mc_point ();
+				if (o[0] == 'B') nsync_cv_broadcast (&cv); else nsync_cv_signal (&cv);
+				vwake_issued (k);
+				h_leave (&mu, 0); nsync_mu_runlock (&mu);
+			} else if (o[0] == 'S') {
+				int k;
+				wlock (); cvflag = 1; k = new_vwake (0); nsync_cv_signal (&cv); vwake_issued (k); wunlock (1);
+			}
+			break;
+		case 'F': wlock (); cvflag = 1; wunlock (1); break;
+		case 'G': { int k = new_vwake (0); nsync_cv_signal (&cv); vwake_issued (k); break; }
 		case 'N': nsync_note_notify (note_fresh); break;
 		case '@': mc_await (&announced_ge[o[1] - '0']); break;
 		}
@@ -188,8 +228,20 @@ static void mw_thread (int me) {
 	}
 }
 
+MC_ORACLE static void cv_accounting (void) {
+	unsigned asleep = 0; int i, j, kprime = 0;
+	for (i = 0; i < MC_MAXF; i++) if (v_state[i] == 1) asleep |= 1u << i;
+	for (i = 0; i < nvw; i++) if (vw[i].issued) {
+		for (j = 0; j < MC_MAXF; j++) if (vw[i].seq[j] != v_seq[j]) vw[i].q &= ~(1u << j);
+		if (!(vw[i].q & asleep)) continue;
+		if (vw[i].bcast) mc_fail ("lost wake-up: nsync_cv_broadcast left asleep a thread that was waiting on the condition variable before it (mask 0x%x)", vw[i].q & asleep);
+		else kprime++;
+	}
+	if (v_returns < kprime) mc_fail ("lost wake-up: %d nsync_cv_signal call(s) were issued while a still-sleeping thread was already waiting, but only %d cv wait(s) returned", kprime, v_returns);
+}
 MC_ORACLE static void accounting (void) {
 	int i;
+	cv_accounting ();
 	for (i = 0; i < SLOTS; i++) if (wr[i].state == 1) {
 		struct wrec *w = &wr[i];
 		if (val[w->var] != 0 && oblig[w->var])
